@@ -17,9 +17,9 @@ vars == <<prog, n, psi, ev, gm>>
 ViewNoGm == <<prog, n, psi, ev>>
 
 K0 == <<0, 0, 0>>
-GNames == <<"X", "H", "RY", "S", "CNOT">>
-GK(name) == IF name = "RY" THEN <<1, 0, 0>> ELSE K0
-GMTab == TLCEval([i \in 1..Len(GNames) |-> GateAt(GNames[i], GK(GNames[i]))])
+GNames == <<"X", "H", "RY", "S", "CNOT", "CRY">>           \* CRY = RY(pi/2).controlled(1): parametric, two qubits, not symmetric
+GK(name) == IF name \in {"RY", "CRY"} THEN <<1, 0, 0>> ELSE K0
+GMTab == TLCEval([i \in 1..Len(GNames) |-> IF GNames[i] = "CRY" THEN MBlockId(2, GateAt("RY", <<1, 0, 0>>)) ELSE GateAt(GNames[i], GK(GNames[i]))])
 GIdx(name) == CHOOSE i \in 1..Len(GNames) : GNames[i] = name
 GM(name) == gm[GIdx(name)]
 Step(name, qs) == [name |-> name, k |-> GK(name), qs |-> qs]
@@ -32,7 +32,7 @@ AppendG(name, qs) == /\ prog' = prog \o <<Step(name, qs)>> /\ psi' = MApply(Lift
 Next == \/ /\ Mode = "basis" /\ \E q \in 0..(n - 1) : q > LastX /\ AppendG("X", <<q>>)
         \/ /\ Mode = "super" /\ Len(prog) < MaxLen
            /\ \/ \E name \in {"X", "H", "RY", "S"} : \E q \in 0..(n - 1) : AppendG(name, <<q>>)
-              \/ \E q \in 0..(n - 1) : \E r \in 0..(n - 1) : q # r /\ AppendG("CNOT", <<q, r>>)
+              \/ \E name \in {"CNOT", "CRY"} : \E q \in 0..(n - 1) : \E r \in 0..(n - 1) : q # r /\ AppendG(name, <<q, r>>)
 
 \* ---- views, by the documented conventions ---------------------------------------------------------------
 Prob(i) == CAbsSq(psi[i + 1])
